@@ -59,6 +59,7 @@ type T struct {
 	partner bool
 	gid     uint64
 	daemon  bool
+	dying   bool // woken (or running) to unwind after the execution ended
 }
 
 // Decision is one recorded choice of an execution.
@@ -303,13 +304,14 @@ func (s *Sched) threadExit(t *T) {
 	t.done = true
 	t.pend = nil
 	if s.killing {
+		s.wakeNextDyingLocked()
 		s.mu.Unlock()
 		return
 	}
 	if t.id == 0 {
 		// main returned: the execution is over
 		s.collectBlockedLocked()
-		s.killAllLocked()
+		s.killAllLocked(t)
 		s.mu.Unlock()
 		return
 	}
@@ -503,7 +505,7 @@ func (s *Sched) switchFrom(t *T, exiting bool) {
 		if s.Steps > s.MaxSteps {
 			s.StepLimit = true
 			s.collectBlockedLocked()
-			s.killAllLocked()
+			s.killAllLocked(t)
 			s.mu.Unlock()
 			if !exiting {
 				runtime.Goexit()
@@ -525,7 +527,7 @@ func (s *Sched) switchFrom(t *T, exiting bool) {
 		if n == 0 {
 			s.Deadlock = true
 			s.collectBlockedLocked()
-			s.killAllLocked()
+			s.killAllLocked(t)
 			s.mu.Unlock()
 			if !exiting {
 				runtime.Goexit()
@@ -633,20 +635,34 @@ func (s *Sched) dispatchLocked(next *T) {
 	}
 }
 
-func (s *Sched) killAllLocked() {
+// killAllLocked ends the execution. Leftover threads are unwound ONE AT A TIME (each dying thread wakes
+// the next when its goroutine is finished): their deferred functions touch shared state of the code under
+// test and of the shims, which must not happen concurrently. cur is the thread that triggered the end; if it
+// still has to unwind itself (it is not done), it is the first to do so and wakes the next one on exit.
+func (s *Sched) killAllLocked(cur *T) {
 	if s.killing {
 		return
 	}
 	s.killing = true
+	close(s.finished)
+	if cur == nil || cur.done {
+		s.wakeNextDyingLocked()
+	} else {
+		cur.dying = true
+	}
+}
+
+func (s *Sched) wakeNextDyingLocked() {
 	for _, o := range s.threads {
-		if !o.done {
+		if !o.done && !o.dying {
+			o.dying = true
 			select {
 			case o.wake <- struct{}{}:
 			default:
 			}
+			return
 		}
 	}
-	close(s.finished)
 }
 
 func (s *Sched) yield(t *T, p *pending) {
